@@ -80,7 +80,9 @@ func setup(w *World, sc Scenario) *runCtx {
 		case "finalize-update", "finalize-resume":
 			res.RequiresFinalization = true
 		case "force-pause":
-			res.ForcePause = kind != "restart"
+			// the application is "not ready" until it releases the pause itself - also when a restart is re-validated
+			// meanwhile (the transport keeps a restarted response paused until the application resumes it)
+			res.ForcePause = !r.forceReleased
 		case "limit+finalize":
 			res.DataLimit = first
 			res.RequiresFinalization = true
